@@ -16,7 +16,8 @@ LEVEL = "exploration"
 RULE = (
     "A case is (transport in {tcp-lines, unix-lines, server loop}, message sequence 1..40 msgs of 1..4095 bytes, "
     "segmentation of hex+LF stream into segments with integer virtual arrival times, a read program with timeouts at k+0.3701 "
-    "placed before/inside/after partially delivered lines, EOF at the end). A reference model predicts the outcome of every "
+    "placed before/inside/after partially delivered lines, EOF at the end - for the server loop also in the same instant as the last segment -, "
+    "a write program in which chosen writes meet back-pressure until they time out: the peer must only see complete lines of written messages, in order). A reference model predicts the outcome of every "
     "read (message k / TimeoutError / end-of-stream b''). Short streams additionally get every single split point "
     "exhaustively. Non-trivial: a split inside a line, >=2 lines in one segment, or a timeout expiring inside a partially "
     "delivered line. Distinct by (messages, segmentation, read program)."
@@ -65,7 +66,9 @@ def case_s(draw, kinds=("tcp-lines", "unix-lines", "server")) -> dict[str, Any]:
     # read program: timeouts (None = no timeout allowed only when data will certainly arrive: the model checks)
     reads = draw(st.lists(st.sampled_from([None, 0.3701, 0.3701, 1.3701, 2.3701, 7.3701, 1000.3701]), min_size=0, max_size=30))
     eof_gap = draw(st.sampled_from([0, 1, 3]))
-    return {"kind": kind, "msgs": msgs, "cuts": cuts, "gaps": gaps, "reads": reads, "eof_gap": eof_gap}
+    # write side: which of the first writes meet a peer that does not drain the stream (back-pressure until the write times out)
+    wblock = draw(st.one_of(st.just([]), st.lists(st.booleans(), min_size=1, max_size=6)))
+    return {"kind": kind, "msgs": msgs, "cuts": cuts, "gaps": gaps, "reads": reads, "eof_gap": eof_gap, "wblock": wblock}
 
 
 def f_reply(req: bytes, idx: int) -> bytes | None:
@@ -157,6 +160,17 @@ def _schedule(loop: Any, reader: asyncio.StreamReader, arr: list[tuple[float, by
             loop.call_at(t, feed, by_t[t])
 
 
+class BPWriter(MemWriter):
+    """MemWriter whose drain() can be made to block (a peer that does not read: the stream is above its high-water mark)."""
+
+    blocked = False
+
+    async def drain(self) -> None:
+        if self.blocked:
+            await asyncio.sleep(3600)
+        await super().drain()
+
+
 def _make_transport(kind: str, reader: asyncio.StreamReader, writer: MemWriter):
     from gallia.transports import TargetURI, TCPLinesTransport
     from gallia.transports.unix import UnixLinesTransport
@@ -178,7 +192,7 @@ def check(case: dict[str, Any]) -> list[tuple[str, str]]:
     async def run() -> None:
         loop = asyncio.get_event_loop()
         reader = asyncio.StreamReader(limit=2**16)
-        writer = MemWriter()
+        writer = BPWriter()
         tr = _make_transport(kind, reader, writer)
         _schedule(loop, reader, arr, t_eof)
         prog = list(case["reads"]) + [1000.3701] * (len(case["msgs"]) + 2)
@@ -191,13 +205,48 @@ def check(case: dict[str, Any]) -> list[tuple[str, str]]:
             except Exception as e:  # noqa: BLE001
                 got.append(("exc", f"{type(e).__name__}: {e}", loop.time()))
                 break
-        # write side: exactly hexlify(m)+LF per write
-        for m in case["msgs"][:5]:
+        # write side: exactly hexlify(m)+LF per write; a write that times out under back-pressure may or may not have queued its
+        # line, but the peer must only ever see complete lines of messages that were written, in order
+        wblock = list(case.get("wblock") or [])
+        written: list[tuple[bytes, bool]] = []
+        n_start = len(writer.log)
+        for i, m in enumerate(case["msgs"][:6]):
             n0 = len(writer.log)
-            await tr.write(m, timeout=1.5)
+            writer.blocked = i < len(wblock) and wblock[i]
+            try:
+                await tr.write(m, timeout=1.5)
+                ok = True
+            except TimeoutError:
+                ok = False
+            if ok and writer.blocked:
+                out.append((f"C19/{kind}/write-ignores-timeout", f"write({m.hex()[:40]}) returned although the stream never drained"))
+            if not ok and not writer.blocked:
+                out.append((f"C19/{kind}/write-times-out", f"write({m.hex()[:40]}) timed out on a stream that drains at once"))
+            written.append((m, ok))
             data = b"".join(b for _, b in writer.log[n0:])
-            if data != hexlify(m) + b"\n":
+            if not wblock and data != hexlify(m) + b"\n":
                 out.append((f"C19/{kind}/write-framing", f"write({m.hex()}) put {data!r} on the wire"))
+        writer.blocked = False
+        if wblock:
+            stream = b"".join(b for _, b in writer.log[n_start:])
+            lines = stream.split(b"\n")
+            tail = lines.pop()
+            k = 0
+            for ln in lines:
+                while k < len(written) and hexlify(written[k][0]) != ln:
+                    if written[k][1]:
+                        break  # a successfully written message may not be skipped
+                    k += 1
+                if k >= len(written) or hexlify(written[k][0]) != ln:
+                    out.append((f"C19/{kind}/write-framing/peer-reads-line-never-sent", f"writes {[(m.hex()[:16], ok) for m, ok in written]} (blocked {wblock}): "
+                                f"peer reads line {ln[:60]!r} ({len(ln)} chars)"))
+                    break
+                k += 1
+            else:
+                if any(ok for _, ok in written[k:]):
+                    out.append((f"C19/{kind}/write-framing/message-missing", f"writes {[(m.hex()[:16], ok) for m, ok in written]}: stream {stream[:120]!r}"))
+                elif tail and written and written[-1][1]:
+                    out.append((f"C19/{kind}/write-framing/unterminated-line", f"stream ends with {tail[:60]!r} after a successful write"))
 
     status, val, _ = run_virtual(run, max_virtual=1e6)
     if status == "exc":
@@ -249,12 +298,19 @@ def _check_server(case: dict[str, Any]) -> list[tuple[str, str]]:
         writer = MemWriter()
         srv = T(None, TargetURI("tcp-lines://127.0.0.1:1"))  # type: ignore[arg-type]
         task = loop.create_task(srv.handle_client(reader, writer))  # type: ignore[arg-type]
-        _schedule(loop, reader, arr, None)
-        # just before EOF the loop must still be running and all requests answered
-        await asyncio.sleep(arr[-1][0] + 0.25)
-        state["alive_before_eof"] = not task.done()
-        state["wire_before_eof"] = writer.data()
-        reader.feed_eof()
+        if case["eof_gap"] == 0:
+            # the client half-closes right behind its last request: end-of-stream arrives in the same instant as the last segment
+            _schedule(loop, reader, arr, arr[-1][0])
+            await asyncio.sleep(arr[-1][0] + 0.25)
+            state["alive_before_eof"] = True
+            state["wire_before_eof"] = writer.data()
+        else:
+            _schedule(loop, reader, arr, None)
+            # just before EOF the loop must still be running and all requests answered
+            await asyncio.sleep(arr[-1][0] + 0.25)
+            state["alive_before_eof"] = not task.done()
+            state["wire_before_eof"] = writer.data()
+            reader.feed_eof()
         try:
             await asyncio.wait_for(task, 5)
             state["ended"] = True
